@@ -115,6 +115,17 @@ class Graph:
         for name in sorted(self.pools):
             lines.append("pool %s depth=%d" % (name, self.pools[name]))
         lines.append("defaults " + " ".join(self.defaults))
+        # manual, "Default target statements": without any, every output that is not named as an input of a statement
+        if self.defaults:
+            bd = sorted(set(self.defaults))
+        else:
+            used = set()
+            for e in self.edges:
+                used.update(e.ins + e.implicit + e.order_only)
+            bd = sorted(set(o for e in self.edges for o in e.outs + e.iouts if o not in used))
+            if self.edges and not bd:
+                bd = ["!none"]
+        lines.append("builds-by-default" + "".join(" " + x for x in bd))
         for e in self.edges:
             lines.append("edge rule=%s outs=%s iouts=%s ins=%s implicit=%s order_only=%s validations=%s pool=%s" % (
                 e.rule.name, ",".join(e.outs), ",".join(e.iouts), ",".join(e.ins), ",".join(e.implicit),
@@ -484,13 +495,6 @@ class Parser:
             has_block = lx.peek("indent")
         e.env = env
         e.block_env = benv
-        # pool
-        pool = self.g.evaluate(e, "pool")
-        if pool != "":
-            if pool != "console" and pool not in self.g.pools:
-                lx.err("unknown pool name '%s'" % pool)
-            e.pool = pool
-
         def paths(evs, what):
             res = []
             for ev in evs:
@@ -524,6 +528,12 @@ class Parser:
             self.g.nodes.add(o)
         for p in e.ins + e.implicit + e.order_only + e.validations:
             self.g.nodes.add(p)
+        # pool: a rule variable like any other -- expanded in the statement's scope, where $in and $out are bound
+        pool = self.g.evaluate(e, "pool")
+        if pool != "":
+            if pool != "console" and pool not in self.g.pools:
+                lx.err("unknown pool name '%s'" % pool)
+            e.pool = pool
         dd = self.g.evaluate(e, "dyndep", shell=False)
         if dd != "":
             ddp = canon(dd)
